@@ -1,5 +1,5 @@
 #!/bin/bash
-# MANIFEST.setup_cmd: build both harness binaries offline from files on disk.
+# MANIFEST.setup_cmd: build the harness binaries offline from files on disk.
 set -e
 HERE="$(cd "$(dirname "${BASH_SOURCE[0]}")/.." && pwd)"
 export RUSTDDS_VERIF_DIR="$HERE"
@@ -8,7 +8,8 @@ export CARGO_NET_OFFLINE=true
 mkdir -p "$CARGO_TARGET_DIR" "$HERE/evidence" "$HERE/replays"
 cd "$HERE/harness"
 cargo build --offline --release --bin vcheck 2>&1 | tail -3
-if grep -q '"vcheck-sec"' "$HERE/tools/bins.txt" 2>/dev/null; then
+# the security build is needed only when a security property (C16-C19) is claimed
+if grep -Eq '"property_id": "C1[6-9]"' "$HERE/MANIFEST.json"; then
   cargo build --offline --release --features security --bin vcheck-sec 2>&1 | tail -3
 fi
 echo setup-ok
